@@ -12,6 +12,8 @@ can be stored in replay files:
   ('add', m, e) ('adds', m, [e..], form) ('rem', m, e, via_entity)      form: gen | iter | map | list | tuple
   ('set', m, e, k, v) ('del', m, e, k) ('dels', m, e, [k..]) ('pop', m, e, k) ('popitem', m, e)
   ('setdefault', m, e, k, v) ('update', m, e, kvs) ('clear', m, e) ('uniq', m, e, prefix) ('export', m)
+  ('keyset', m, e, kvs)               objs[m][e].keys = dict(kvs): the deprecated setter that replaces all keys (round 5;
+                                      for the model: Clear then Update, observed after both)
   ('probe', m, which, key)            evaluate maps[m].by_class[key] / by_target[key]: a defaultdict read, which leaves
                                       an empty set behind when the key was absent
   ('iter', m, which, key, subop)      iterate maps[m].by_class[key] / by_target[key] / search(key) and apply
@@ -163,6 +165,13 @@ class World:
             objs[op[2]].update(dict(op[3]))
         elif k == 'clear':
             objs[op[2]].clear()
+        elif k == 'keyset':
+            prop = Entity.__dict__.get('keys')
+            if isinstance(prop, property) and prop.fset is not None:
+                objs[op[2]].keys = dict(op[3])
+            else:      # the deprecated setter is gone: its documented replacement
+                objs[op[2]].clear_keys()
+                objs[op[2]].update(dict(op[3]))
         elif k == 'uniq':
             objs[op[2]].make_unique(op[3])
         elif k == 'export':
